@@ -1,6 +1,7 @@
 package main
 
 import (
+	"encoding/hex"
 	"fmt"
 	"go/ast"
 	"go/token"
@@ -609,7 +610,11 @@ func (c *SpecCtx) call(e *ast.CallExpr) Value {
 	case "nofint":
 		return FOfInt(SN, c.term(e.Args[0]))
 	case "fint":
-		return FInt(c.term(e.Args[0]))
+		x := c.term(e.Args[0])
+		if x.sort.K != KF {
+			c.fail("fint of a non-field value")
+		}
+		return FInt(x)
 	case "F":
 		return FConst(c.term(e.Args[0]).val, SF)
 	case "Fn":
@@ -634,6 +639,9 @@ func (c *SpecCtx) call(e *ast.CallExpr) Value {
 		x := c.term(e.Args[0])
 		if !x.IsConst() {
 			c.fail("pow2 of symbolic value")
+		}
+		if x.val.Sign() < 0 || x.val.Cmp(bi(8192)) > 0 {
+			c.fail("pow2 argument out of range")
 		}
 		return IntC(pow2(int(x.val.Int64())))
 	case "len":
@@ -712,12 +720,27 @@ func (c *SpecCtx) call(e *ast.CallExpr) Value {
 		if !ok {
 			c.fail("hexvalid of non-string")
 		}
+		if sv, known := ex.strVals[fmt.Sprint(o.Data)]; known && concreteOn {
+			_, err := hex.DecodeString(sv)
+			return BoolC(err == nil)
+		}
 		return ex.hexOf(fmt.Sprint(o.Data)).ok
 	case "hexbytes":
 		v := c.eval(e.Args[0])
 		if o, ok := v.(OpaqueV); ok {
 			if o.Kind == "hexstr" {
 				return o.Data.(SliceV)
+			}
+			if sv, known := ex.strVals[fmt.Sprint(o.Data)]; known && concreteOn {
+				bs, _ := hex.DecodeString(sv)
+				bo := ex.newBytes("hexdec", len(bs), len(bs))
+				for i, b := range bs {
+					bo.Cells[i] = ex.constOf(bi(int64(b)), u8t)
+				}
+				if len(bs) == 0 {
+					return SliceV{Elem: types.Typ[types.Uint8]}
+				}
+				return SliceV{Obj: bo, Len: len(bs), Cap: len(bs), Elem: types.Typ[types.Uint8]}
 			}
 			m := ex.hexOf(fmt.Sprint(o.Data))
 			if m.bytes.Obj == nil {
